@@ -1315,6 +1315,7 @@ def test_breaker_machine(checks, seed_value):
         ("code", list(ERR_CODES)),
         ("exc_kind", sorted(APP_EXC)),
     ])
+    fail_args = packed([("outcome", ["conn", "hdr"]), ("wait", WAIT_OPTS), ("dur", [0.0, 0.0, 0.25]), ("code", list(ERR_CODES))])
     adv_args = packed(ADV_FIELDS)
 
     class BreakerMachine(RuleBasedStateMachine):
@@ -1330,6 +1331,11 @@ def test_breaker_machine(checks, seed_value):
         def call(self, a):
             wait_for_expiry(self.h, a["wait"])
             self.h.call(a["outcome"], a["allowed"], a["dur"], a["code"], a["exc_kind"])
+
+        @rule(a=fail_args)
+        def failing_call(self, a):
+            wait_for_expiry(self.h, a["wait"])
+            self.h.call(a["outcome"], True, a["dur"], a["code"], "value")
 
         @rule(a=adv_args)
         def advance(self, a):
@@ -1363,6 +1369,9 @@ def test_requests_hook(checks, seed_value):
         ("method", ["GET", "POST"]),
         ("with_headers", [False, True]),
     ])
+    fail_args = packed([("dest", ["public_ip", "public_name"]), ("gw", ["conn", "hdr"]), ("wait", WAIT_OPTS),
+                        ("direct", ["ok", "ok", "exc"]), ("dur", [0.0, 0.0, 0.25]), ("code", list(ERR_CODES)),
+                        ("direct_exc", list(HOOK_DIRECT_EXC))])
     adv_args = packed(ADV_FIELDS)
 
     class HookMachine(RuleBasedStateMachine):
@@ -1379,6 +1388,11 @@ def test_requests_hook(checks, seed_value):
             wait_for_expiry(self.h, a["wait"])
             self.h.call(a["dest"], a["gw"], a["code"], a["gw_exc"], a["dur"], a["direct"], a["direct_exc"],
                         a["method"], a["with_headers"])
+
+        @rule(a=fail_args)
+        def failing_call(self, a):
+            wait_for_expiry(self.h, a["wait"])
+            self.h.call(a["dest"], a["gw"], a["code"], "value", a["dur"], a["direct"], a["direct_exc"], "GET", False)
 
         @rule(a=adv_args)
         def advance(self, a):
